@@ -19,7 +19,7 @@ import (
 func init() {
 	register(&Prop{
 		ID: "C15", Level: "fault_enumeration",
-		Rule: "one case = a router with CustomRecoveryWithLogHandler(capturing handler, DefaultHandleRecovery) over all handler kinds, generated routes, request headers carrying unique secret tokens under credential-bearing names in canonical, lower-case and mixed capitalisation (drawn) next to ordinary headers, and a generated Updates/View program; for that configuration ALL combinations are enumerated of panic value (string, error, wrapped error, nil, custom type, http.ErrAbortHandler bare and wrapped, net.OpError with broken pipe / connection reset / other errno, directly or one wrapping layer down) x response progress at the time of the panic (nothing, header only, partial body, after a failed write) x panic site (route handler, route-specific middleware, no-route, no-method and options handlers), a panic after every prefix of the Updates/View program run inside a handler, and a panic raised by a middleware constructor while Router.Handle/Update build a route inside a handler (user code running under the writer lock). Oracle: ServeHTTP returns normally (ErrAbortHandler re-raised as the identical value); the simulated connection shows 500 iff nothing had been written and the value is not a broken-connection error, nothing at all for broken connections, an untouched partial response otherwise; exactly one diagnostic record naming route (or scope), parameters and request line and containing none of the secret values; afterwards the routes are unchanged, a follow-up request is served and a write issued under the scheduler completes (writer lock released, else deadlock). Non-trivial: every run (all combinations are executed); distinct = hash of (configuration, header capitalisation, program).",
+		Rule: "one case = a router with CustomRecoveryWithLogHandler(capturing handler, DefaultHandleRecovery) over all handler kinds, generated routes, request headers carrying unique secret tokens under credential-bearing names in canonical, lower-case and mixed capitalisation (drawn; some with two values or under two capitalisations at once) next to ordinary headers, and a generated Updates/View program; for that configuration ALL combinations are enumerated of panic value (string, error, wrapped error, nil, custom type, http.ErrAbortHandler bare and wrapped, net.OpError with broken pipe / connection reset / other errno, directly or one wrapping layer down) x response progress at the time of the panic (nothing, header only, partial body, after a failed write) x panic site (route handler, route-specific middleware, no-route, no-method and options handlers), a panic after every prefix of the Updates/View program run inside a handler, and a panic raised by a middleware constructor while Router.Handle/Update build a route inside a handler (user code running under the writer lock). Oracle: ServeHTTP returns normally (ErrAbortHandler re-raised as the identical value); the simulated connection shows 500 iff nothing had been written and the value is not a broken-connection error, nothing at all for broken connections, an untouched partial response otherwise; exactly one diagnostic record naming route (or scope), parameters and request line and containing none of the secret values; afterwards the routes are unchanged, a follow-up request is served and a write issued under the scheduler completes (writer lock released, else deadlock). Non-trivial: every run (all combinations are executed); distinct = hash of (configuration, header capitalisation, program).",
 		Run:  runC15, Quick: 4000, Thorough: 480000,
 		Real: []string{"Recovery middleware (recovery.go)", "Router.Updates/View abort paths", "recorder ResponseWriter", "ServeHTTP dispatch"},
 		Stub: []string{"slog sink: capturing handler", "net/http connection: simulated connection", "handlers and middleware that panic on script"},
@@ -123,12 +123,26 @@ func runC15(src sim.Source, o Opts) *Result {
 		k, c := capitalise(src, n)
 		secrets = append(secrets, hdr{k, fmt.Sprintf("SECRET-%d-%s", i, strings.Repeat("z", 3+i)), c})
 		res.inc("secret_header_" + c)
+		// a credential header may occupy several lines of the request dump: several values under one key, or the same
+		// name under a second capitalisation (two keys of the header map)
+		switch src.Intn("secretshape", 4) {
+		case 2:
+			secrets = append(secrets, hdr{k, fmt.Sprintf("SECRET-%d-second-value", i), c + "+second-value"})
+			res.inc("secret_header_with_two_values")
+		case 3:
+			k2 := strings.ToLower(n)
+			if k2 == k {
+				k2 = http.CanonicalHeaderKey(n)
+			}
+			secrets = append(secrets, hdr{k2, fmt.Sprintf("SECRET-%d-other-key", i), c + "+second-capitalisation"})
+			res.inc("secret_header_under_two_keys")
+		}
 	}
 	ordinary = append(ordinary, hdr{"X-Request-Id", "ordinary-value-1", ""}, hdr{"accept", "ordinary-value-2", ""})
 	mkReq := func(method, p string, log *world.ReqLog) *http.Request {
 		req := world.NewRequest(method, "sim.invalid", p, "", "q=1", log)
 		for _, h := range secrets {
-			req.Header[h.Key] = []string{h.Val}
+			req.Header[h.Key] = append(req.Header[h.Key], h.Val)
 		}
 		for _, h := range ordinary {
 			req.Header[h.Key] = []string{h.Val}
